@@ -244,6 +244,12 @@ fn r_exec(st: &mut RState, step: &RStep, w: &RWorkload) -> Result<Result<String,
 
 /// Runs the whole script under a fault plan; returns (trace, underlying calls made).
 fn r_run(w: &RWorkload, faults: Vec<Fault>, rep: &mut Report, reference: Option<&Vec<String>>) -> Result<(Vec<String>, u64), (String, String)> {
+    r_run_opt(w, faults, rep, reference, true)
+}
+
+/// `probe`: after a failed read, look behind the position before retrying (that moves the
+/// buffer window, so half of the runs retry at once instead).
+fn r_run_opt(w: &RWorkload, faults: Vec<Fault>, rep: &mut Report, reference: Option<&Vec<String>>, probe: bool) -> Result<(Vec<String>, u64), (String, String)> {
     let (_f, shared) = MonFile::new(w.bytes.clone());
     shared.arm(faults);
     let mut st = RState { shared: shared.clone(), cf: None, stream: None, path: String::new(), pos: 0, api: 0 };
@@ -284,7 +290,7 @@ fn r_run(w: &RWorkload, faults: Vec<Fault>, rep: &mut Report, reference: Option<
                     // "after a failed call the same handle can be used again": before retrying,
                     // look behind the position (the window that was buffered before the failure)
                     // and come back
-                    if matches!(step, RStep::Read(_) | RStep::Fill(_) | RStep::ReadToEnd) && st.stream.is_some() && attempts == 1 {
+                    if probe && matches!(step, RStep::Read(_) | RStep::Fill(_) | RStep::ReadToEnd) && st.stream.is_some() && attempts == 1 {
                         let back = st.pos.min(700);
                         if back > 0 {
                             let here = st.pos;
@@ -404,7 +410,7 @@ pub fn run_c12(ctx: &Ctx, rep: &mut Report) {
                     }
                     let plan = vec![Fault { kinds: K_READ | K_SEEK, k, err: *kind, sticky: false, partial }];
                     crate::guard::case_begin(case); // CPU budget per faulty run, not per workload
-                    let r = guard::catch(|| r_run(&wl, plan, rep, Some(&reference.0)));
+                    let r = guard::catch(|| r_run_opt(&wl, plan, rep, Some(&reference.0), (k + vi as u64) % 2 == 0));
                     rep.evaluations += 1;
                     rep.count(if partial { "runs.short_then_fail" } else { "runs.single_fault" });
                     let fw = || witness(vec![("fault_position", J::Int(k as i128)), ("error_kind", J::s(format!("{kind:?}"))), ("short_then_fail", J::Bool(partial))]);
@@ -426,7 +432,7 @@ pub fn run_c12(ctx: &Ctx, rep: &mut Report) {
             let kind = if k % 2 == 0 { ErrorKind::TimedOut } else { ErrorKind::WouldBlock };
             let plan: Vec<Fault> = (0..3).map(|d| Fault { kinds: K_READ | K_SEEK, k: k + d, err: kind, sticky: false, partial: false }).collect();
             crate::guard::case_begin(case);
-            let r = guard::catch(|| r_run(&wl, plan, rep, Some(&reference.0)));
+            let r = guard::catch(|| r_run_opt(&wl, plan, rep, Some(&reference.0), k % 4 == 3));
             rep.evaluations += 1;
             rep.count("runs.burst_of_three");
             let fw = || witness(vec![("fault_position", J::Int(k as i128)), ("error_kind", J::s(format!("{kind:?}"))), ("burst", J::Int(3))]);
@@ -546,6 +552,19 @@ fn build_write_script(rng: &mut Rng, w: u64) -> Vec<WStep> {
             s.push(WStep::OpenNew { slot: 0, path: format!("/n{k}") });
             s.push(WStep::Write { slot: 0, len: [40usize, 64, 200, 100, 65][k] });
             s.push(WStep::CloseHandle { slot: 0 });
+        }
+        if (w / 4) % 2 == 1 {
+            // the file passes 128 sectors during the writes after the marker: a second FAT
+            // sector is appended inside a write-back (the zero-filled bulk before the marker
+            // is not swept)
+            let mut pre = vec![WStep::OpenNew { slot: 0, path: "/wide".into() }, WStep::SetLen { slot: 0, n: 56_000 }, WStep::Seek { slot: 0, to: 56_000 }, WStep::Marker];
+            for _ in 0..12 {
+                pre.push(WStep::Write { slot: 0, len: 1024 }); // a plain write takes at most one buffer
+            }
+            pre.push(WStep::FlushHandle { slot: 0 });
+            pre.push(WStep::CloseHandle { slot: 0 });
+            pre.extend(s.drain(..));
+            s = pre;
         }
         s.push(WStep::OpenNew { slot: 1, path: "/big".into() });
         let chunks = if w % 4 == 3 { 5 } else { 3 };
